@@ -54,10 +54,11 @@ func ZZVerifC14WriteVsAdmin() {
 		l, ok := e2.VGetLinks("i0", "a", "r")
 		found = ok && len(l) == 1 && l[0] == "b"
 	}
-	// the window of the known defect: the write was journaled before snapshot mode began (so it is not in
-	// the shadow buffer) and finished applying after the state capture started
+	// the window of the known defect (both SaveSnapshot and RewriteAOF capture the in-memory state after
+	// BeginSnapshotMode and then drop the old log): the write was journaled before snapshot mode began (so it
+	// is not in the shadow buffer) and finished applying after snapshot mode began
 	inGap := persistence.ZZLastWriteSeq < persistence.ZZBeginSeq && zzDoneSeq > persistence.ZZBeginSeq
-	rt.Known("C14-journal-apply-gap", admin == 0 && inGap)
+	rt.Known("C14-journal-apply-gap", inGap)
 	rt.Assert(found, "a write acknowledged while a snapshot/compaction runs is present after restart")
 	rt.Reach("end")
 }
